@@ -1,11 +1,11 @@
-\* direct 2 objects, ranks 0..4, boundary lists {} and {1,3}, <=2 Aggregate, <=4 New/Merge/Diff
+\* direct 2 objects, ranks 0..4, LONG boundary lists (17-18 entries, value-equal boundary first / last / middle), <=2 Aggregate, <=2 other
 \* (tools/props/C07.py generates the same text; thorough tier uses larger constants)
 CONSTANTS MaxRank = 4
-  BoundSets = {{}, {1,3}} BOff = 0
+  BoundSets = {{65, 69, 70, 71, 72, 73, 74, 75, 76, 77, 78, 79, 80, 81, 82, 83, 84}, {48, 49, 50, 51, 52, 53, 54, 55, 56, 57, 58, 59, 60, 61, 62, 63, 67}, {56, 57, 58, 59, 60, 61, 62, 63, 65, 67, 69, 70, 71, 72, 73, 74, 75, 76}} BOff = 64
   Tables = {"D_small"}
   MMChoices = {TRUE}
   Mode = "direct" NSlots = 2 NKeys = 1 ReaderCfgs = {1}
-  MaxAgg = 2 MaxOps = 4 Balanced = FALSE Hist = FALSE
+  MaxAgg = 2 MaxOps = 2 Balanced = FALSE Hist = FALSE
   Dev = {}
 INIT Init
 NEXT Next
